@@ -573,6 +573,16 @@ def gen_edit(rng, ref, frag, pool, cfg):
             feat = rng.choice(cands)
             i = rng.randrange(len(feat["attrs"]))
             val = _attr_value(rng, "uvl" if spec["attrs"] == "uvl" else "json", 1)
+            cur = feat["attrs"][i]["v"]
+            twins = {"1": [True, 1.0, 1], "0": [False, 0.0, 0], "2": [2.0, 2]}
+            if rng.random() < 0.4 and isinstance(cur, (bool, int, float)) and \
+                    str(int(cur)) in twins and float(cur) == int(cur):
+                # same number, other type (1 / true / 1.0): equal for Python's ==, not for a model
+                options = [t for t in twins[str(int(cur))] if type(t) is not type(cur)]
+                if spec["attrs"] == "uvl":
+                    options = [t for t in options if not (isinstance(t, float) and t == 0.0)] \
+                        or options
+                val = rng.choice(options)
             feat["attrs"][i]["v"] = val
             return {"k": "set_attr", "f": feat["n"], "a": feat["attrs"][i]["n"], "v": val}, new
         if kind == "swap_names":
